@@ -2,12 +2,14 @@
 pub mod cli;
 pub mod cmdgen;
 pub mod dump;
+pub mod imgx;
 pub mod model;
 pub mod par;
 pub mod polex;
 pub mod report;
 pub mod resp;
 pub mod seqx;
+pub mod shardsys;
 pub mod stores;
 
 pub use cli::{Args, Tier};
